@@ -189,7 +189,8 @@ def showMat (out : List Chunk) : String :=
 def runOp (cls : Cls) (env : Env) (st : St) : DOp → St
   | .save orig req dest =>
       let env := { env with destImage := dest }
-      let o := if orig then saveOrig cls env req st.img else save cls env req st.img
+      let o := if orig then saveOrig cls env req st.img
+               else if st.quiet then saveByName cls env req st.img else save cls env req st.img
       let (st1, s) := showState st o.img
       let (outs, oid) := match o.err with
         | none => let (os, i) := firstSeen st1.outs o.out; (os, toString i)
